@@ -156,6 +156,16 @@ func runReplays(e *Engine, repo, hdir string, reps []*pendingReplay) {
 					txt = strings.ReplaceAll(txt, "time.Since(", "zzverifrt.TimeSince(") + "\nvar _ = time.Now\n"
 					changed = true
 				}
+				// the model socket behind SetBPFAndDrain (the symbolic run redirects these calls to the same functions)
+				if pkg == "packets" && contains(hf[pkg], "Verif_C10_setbpf") && strings.Contains(txt, "syscall.Recvfrom(") {
+					txt = strings.ReplaceAll(txt, "syscall.Recvfrom(", "vRecvfrom(")
+					txt = strings.ReplaceAll(txt, "unix.SetsockoptSockFprog(", "vSetsockoptSockFprog(")
+					txt = strings.ReplaceAll(txt, "syscall.SetsockoptInt(", "vSetsockoptInt(")
+					if !changed {
+						txt += "\nvar _ = zzverifrt.Bool\n"
+					}
+					changed = true
+				}
 				if !changed {
 					continue
 				}
